@@ -151,7 +151,8 @@ class S(object):
         if z3.is_rational_value(bs):
             if bs.numerator_as_long() == 0:
                 return a / b
-            return a * z3.RealVal('%d/%d' % (bs.denominator_as_long(), bs.numerator_as_long()))
+            inv = Fraction(bs.denominator_as_long(), bs.numerator_as_long())     # sign normalised into the numerator
+            return a * z3.RealVal('%d/%d' % (inv.numerator, inv.denominator))
         a_s = z3.simplify(a)
         key = (a_s.get_id(), bs.get_id())
         hit = _div_cache.get(key)
@@ -302,8 +303,24 @@ def reset_symbols():
     _div_cache.clear()
 
 
-def side_conditions():
-    return list(_side)
+def side_conditions(congruence=False):
+    """defining conditions of the quotient / sqrt symbols; with congruence=True also the functional congruence
+    between them (equal arguments give equal symbols: sqrt and division are functions) - used where two terms
+    are compared for semantic identity (merging of atoms / reduction records)"""
+    out = list(_side)
+    if not congruence:
+        return out
+    sq = [(r, a) for (r, a) in _sqrt_cache.values() if isinstance(r, S) and not z3.is_rational_value(z3.simplify(r.t))]
+    if len(sq) <= 12:
+        for i in range(len(sq)):
+            for j in range(i + 1, len(sq)):
+                out.append(z3.Implies(sq[i][1] == sq[j][1], sq[i][0].t == sq[j][0].t))
+    dv = [v for v in _div_cache.values() if z3.is_expr(v[0])]
+    if len(dv) <= 12:
+        for i in range(len(dv)):
+            for j in range(i + 1, len(dv)):
+                out.append(z3.Implies(z3.And(dv[i][1] == dv[j][1], dv[i][2] == dv[j][2]), dv[i][0] == dv[j][0]))
+    return out
 
 
 def fresh_real(prefix='t'):
@@ -778,7 +795,7 @@ class Lower(object):
         if z3.is_false(goal):
             return False
         from . import vc
-        v = vc.prove(list(self.pc), side_conditions(), goal, quick=True)
+        v = vc.prove(list(self.pc), side_conditions(congruence=True), goal, quick=True)
         return v.status == 'proved'
 
 
@@ -811,6 +828,11 @@ def pw_apply(fn, a):
         return ssqrt(a[0])
     if fn == 'square':
         return a[0] * a[0]
+    if fn == 'abs2':
+        x = a[0]
+        if isinstance(x, C):
+            return x.re * x.re + x.im * x.im
+        return x * x
     if fn == 'power':
         return a[0] ** a[1]
     if fn == 'where':
